@@ -103,14 +103,28 @@ def code_data_from_json(value: object) -> CodeData:
     if not isinstance(value, dict):
         raise ValueError(f"Expected dict, got {type(value)}")
     value = copy(value)
+    for key in ("filename", "name"):
+        if key in value:
+            value[key] = string_from_json(value[key])
+    if "freevars" in value:
+        value["freevars"] = tuple(map(string_from_json, value["freevars"]))
     if "blocks" in value:
         value["blocks"] = tuple(
             tuple(instruction_from_json(i) for i in block) for block in value["blocks"]
         )
     if "type" in value:
         tp = copy(value["type"])
+        if "docstring" in tp:
+            tp["docstring"] = string_from_json(tp["docstring"])
         if "args" in tp:
-            tp["args"] = Args(**lists_values_to_tuples(tp["args"]))
+            tp["args"] = Args(
+                **{
+                    k: tuple(map(string_from_json, v))
+                    if isinstance(v, list)
+                    else string_from_json(v)
+                    for k, v in tp["args"].items()
+                }
+            )
         value["type"] = Function(**tp)
     if "flags" in value:
         value["flags"] = frozenset(value["flags"])
@@ -123,6 +137,16 @@ def code_data_from_json(value: object) -> CodeData:
             **lists_values_to_tuples(value["_additional_line"])
         )
     return CodeData(**lists_values_to_tuples(value))
+
+
+def string_from_json(value: object) -> object:
+    """
+    Strings which cannot be encoded as UTF-8 are stored as {"string": repr(value)}
+    wherever they occur, not only in constants.
+    """
+    if isinstance(value, dict) and "string" in value:
+        return literal_eval(value["string"])
+    return value
 
 
 def lists_values_to_tuples(d):
@@ -155,9 +179,9 @@ def arg_from_json(value: object) -> Arg:
     if "target" in value:
         return Jump(**value)
     if "name" in value:
-        return Name(**value)
+        return Name(**{k: string_from_json(v) for k, v in value.items()})
     if "varname" in value:
-        return Varname(**value)
+        return Varname(**{k: string_from_json(v) for k, v in value.items()})
     if "constant" in value:
         value = copy(value)
         if isinstance(value["constant"], dict) and "filename" in value["constant"]:
@@ -166,9 +190,9 @@ def arg_from_json(value: object) -> Arg:
             value["constant"] = constant_value_from_json(value["constant"])
         return Constant(**value)
     if "freevar" in value:
-        return Freevar(**value)
+        return Freevar(**{k: string_from_json(v) for k, v in value.items()})
     if "cellvar" in value:
-        return Cellvar(**value)
+        return Cellvar(**{k: string_from_json(v) for k, v in value.items()})
     if "_arg" in value:
         return NoArg(**value)
     raise ValueError(f"Unsupported arg type: {type(value)}")
